@@ -75,6 +75,7 @@ package flyt
 //@   loop 1 invariant [C02] nExec <= budget(node)
 //@   loop 1 invariant [C20] lastEnd <= now
 //@   loop 1 candidate !cancelled
+//@   loop 1 candidate ph == 1 ==> !cancelled
 //@   loop 1 decreases [C02] budget(node) - nExec
 //@   ensures [C04,C06,C18] isBatch(node) ==> nBatch == 1 && act == bAct && err == bErr && ph == 0
 //@   ensures [C01,C18] !isBatch(node) ==> (err == nil && act != "") || (err != nil && act == "")
@@ -375,7 +376,7 @@ package flyt
 //@   ensures [C01] old(n.postFunc) == nil ==> calls == 0 && a == DefaultAction && err == nil
 
 //@ func (*CustomNode).ExecFallback(n, prepResult, e0) (v, err)
-//@   requires n != nil && n.BaseNode != nil
+//@   requires n != nil && n.BaseNode != nil && e0 != nil
 //@   havoc user
 //@   ghost calls int = 0; uv any = nil; ue error = nil
 //@   on call field CustomNode.execFallbackFunc(fn, p, e) returns (rv, re)
@@ -412,7 +413,7 @@ package flyt
 //@     effect calls = 1; da = ra; de = re
 //@   ensures [C01,C04,C17] calls == 1 && a == da && err == de
 //@ func (*NodeBuilder).ExecFallback(b, p, e0) (v, err)
-//@   requires b != nil && b.CustomNode != nil && b.CustomNode.BaseNode != nil
+//@   requires b != nil && b.CustomNode != nil && b.CustomNode.BaseNode != nil && e0 != nil
 //@   havoc user
 //@   ghost calls int = 0; dv any = nil; de error = nil
 //@   on call (*CustomNode).ExecFallback(n, pr, e) returns (rv, re)
